@@ -208,3 +208,24 @@ define void ()* @res() {
 define void @4() {
   ret void
 }
+;;; ATOM module/datalayout-program-addrspace
+target datalayout = "P1"
+define void @f() addrspace(1) {
+  ret void
+}
+declare void @d()
+@p = global void () addrspace(1)* @f
+@q = global void () addrspace(1)* @d
+define void @g() {
+  call void @f()
+  call addrspace(1) void @d()
+  ret void
+}
+;;; ATOM global/empty-quoted-names-repeated
+@"" = global i32 5
+@"" = global i32 6
+@p = global i32* @1
+define void @""() {
+  ret void
+}
+@q = global void ()* @2
